@@ -235,6 +235,18 @@ def run_stream(ctx, notes, include, minimum, case):
             want = R.count_steps(model, inc, sb, m)
             got = C.count_steps(iter(real), **kw)
             ctx.expect(got == want, f"count_steps:sb{sb}", minimum=m, want=want, got=got, include=include)
+    for sb in (R.ALL, R.SEPARATE, R.BY_TYPE):
+        ctx.mon("count_steps")
+        inc = inc_model if include else R.DEFAULT_TYPES
+        kwi = {"include_note_types": inc_real} if include else {}
+        want = R.count_steps(model, inc, sb, 2)
+        got = C.count_jumps(iter(real), same_beat_notes=SB[sb], **kwi)
+        ctx.expect(got == want, f"count_jumps:sb{sb}", want=want, got=got, include=include)
+        for m in (mins if minimum else [3]):
+            want = R.count_steps(model, inc, sb, m)
+            kwm = {"same_beat_minimum": m} if (minimum or ctx.evaluations % 2) else {}
+            got = C.count_hands(iter(real), same_beat_notes=SB[sb], **kwm, **kwi)
+            ctx.expect(got == want, f"count_hands:sb{sb}", minimum=m, want=want, got=got, include=include)
     ctx.mon("count_steps")
     ctx.expect(C.count_steps(iter(real)) == R.count_steps(model), "count_steps:defaults",
                want=R.count_steps(model), got=C.count_steps(iter(real)))
